@@ -23,7 +23,7 @@ RULE = ('Each run generates a DSG spec (incl. zero selection choices, forced sin
         'the vectors in another order gives the same table, and for exhaustively decoded spaces the reached architectures '
         'equal R-sem\'s set and the set of the complete-encoder twin. evaluations = runs that obtained a FAST processor; '
         'non-trivial = >= 2 admitted architectures; distinct = distinct (spec, mode).')
-WALL_BUDGET = {'quick': 90.0, 'thorough': 1500.0}
+WALL_BUDGET = {'quick': 90.0, 'thorough': 700.0}
 
 
 def jobs(tier, batch_seed):
